@@ -241,6 +241,7 @@ func c01Spec(rng *rand.Rand, i int) *SessSpec {
 		sp.PNow, sp.PDefer = 0.5, 0.5
 	}
 	sp.PCommitIn = []float64{0, 0, 0.2}[rng.Intn(3)]
+	sp.CommitUnacked = rng.Intn(2) == 0
 	if rng.Intn(2) == 0 {
 		sp.Auto, sp.IntervalMs = true, 1+rng.Intn(6)
 	}
@@ -277,6 +278,17 @@ func c01Spec(rng *rand.Rand, i int) *SessSpec {
 	}
 	if rng.Intn(3) == 0 {
 		sp.NoFinalClose = true // the process "dies" without a graceful close
+	}
+	if i%6 == 5 {
+		// finite mode: every stream ends normally at the sequence number sampled at start-up and the client stops on
+		// its own with a final save, while acknowledgements are still outstanding
+		sp.Mode, sp.Auto, sp.IntervalMs, sp.NoFinalClose, sp.AutoReset = "finite", true, 2+rng.Intn(4), false, ""
+		for vb := 0; vb < sp.NumVB; vb++ {
+			if len(sp.Backlog[vb]) == 0 {
+				sp.Backlog[vb] = append(sp.Backlog[vb], genSnap(rng, o, &ctr))
+			}
+		}
+		sp.Steps = []Step{{Op: "waitstop", Ms: 5000}}
 	}
 	return sp
 }
